@@ -236,6 +236,9 @@ class RaiseSig(Exception):
         self.node = node
 
 
+DYN_NAMEDTUPLES = {}        # classes created by collections.namedtuple(name, fields) at module level: name -> field names
+
+
 def _package_modules(repo):
     """the modules of the package, the well-known ones first (a helper module added by a refactoring is found too)"""
     first = ['value', 'parser', 'library', 'runtime', 'model', 'data', 'options', 'bare']
@@ -956,8 +959,15 @@ class Interp:
             if isinstance(base, AObj):
                 if e.attr in base.attrs:
                     return base.attrs[e.attr]
+                consts = self.class_constants(base.cls)
+                if e.attr in consts:
+                    return consts[e.attr]       # a class-level constant read through the instance
                 if isinstance(getattr(e, 'ctx', None), ast.Load):
                     return ('bound', base, e.attr)
+            if isinstance(base, tuple) and len(base) == 2 and base[0] == 'class' and isinstance(base[1], str):
+                consts = self.class_constants(base[1])
+                if e.attr in consts:
+                    return consts[e.attr]
             if isinstance(base, tuple) and base and base[0] == 'partial' and e.attr in ('func', 'args', 'keywords'):
                 return base[1] if e.attr == 'func' else tuple(base[2]) if e.attr == 'args' else ADict(dict(base[3]) if len(base) > 3 else {})
             if isinstance(base, Sym):
@@ -1321,6 +1331,33 @@ class Interp:
                 return (m, node) if ok_bases else None
         return None
 
+    def class_constants(self, cname):
+        """simple class-level assignments (NAME = <expression over literals and earlier constants>) of a repository class, evaluated once"""
+        cache = self.__dict__.setdefault('_class_consts', {})
+        if cname in cache:
+            return cache[cname]
+        cache[cname] = out = {}
+        repo = getattr(self, 'repo', None)
+        mods = [self.mod] + ([repo.module(n) for n in _package_modules(repo) if n != self.mod.name] if repo is not None else [])
+        for m in mods:
+            node = getattr(m, 'classes', {}).get(cname)
+            if node is None:
+                continue
+            it = self if m is self.mod or repo is None else self.sub_interp(m)
+            for st in node.body:
+                if isinstance(st, ast.Assign) and len(st.targets) == 1 and isinstance(st.targets[0], ast.Name):
+                    try:
+                        out[st.targets[0].id] = it.eval(st.value, dict(out))
+                    except (Unrecognised, RaiseSig):
+                        pass
+            break
+        return out
+
+    def _class_scope(self, func_node):
+        """the names visible to a method's default expressions: the constants of its class body"""
+        parent = getattr(func_node, '_parent', None)
+        return dict(self.class_constants(parent.name)) if isinstance(parent, ast.ClassDef) else {}
+
     def exception_attrs(self, cname, args, at):
         """attributes a repository exception class's own __init__ stores on the instance (evaluated on the raise arguments); None when the class has no __init__ here
         or its constructor is outside the subset"""
@@ -1394,6 +1431,20 @@ class Interp:
 
     def instantiate(self, cname, args, kwargs, at):
         """an instance of a plain repository class: a heap object whose __init__ is evaluated; None for classes that are modelled otherwise (exceptions, host subclasses)"""
+        if cname in DYN_NAMEDTUPLES:
+            names = DYN_NAMEDTUPLES[cname]
+            if len(args) > len(names) or any(k not in names for k in (kwargs or {})):
+                raise RaiseSig('TypeError', (f'{cname}() got unexpected arguments',), at)
+            obj = AObj(cname)
+            for i, f in enumerate(names):
+                if i < len(args):
+                    obj.attrs[f] = args[i]
+                elif kwargs and f in kwargs:
+                    obj.attrs[f] = kwargs[f]
+                else:
+                    raise RaiseSig('TypeError', (f'{cname}() missing argument {f}',), at)
+            obj.fields, obj.frozen, obj.is_tuple = list(names), True, True
+            return obj
         home = self.class_home(cname)
         if home is None:
             return None
@@ -1559,6 +1610,12 @@ class Interp:
 
     def host_function(self, name, args, e):
         """standard-library functions with exact models: itertools.count, the operator module"""
+        if name == 'collections.namedtuple' and len(args) >= 2 and isinstance(args[0], str):
+            fields = args[1].replace(',', ' ').split() if isinstance(args[1], str) else list(self.iterate(args[1], e))
+            kw = getattr(self, '_kwargs', None) or {}
+            if all(isinstance(f, str) for f in fields) and not kw:
+                DYN_NAMEDTUPLES[args[0]] = list(fields)
+                return ('class', args[0])
         if name == 're.compile':
             if args and isinstance(args[0], str) and all(isinstance(a, int) for a in args[1:]):
                 return ARegex('<anonymous>', args[0], args[1] if len(args) > 1 else 0)
@@ -2111,7 +2168,7 @@ class Interp:
                     raise RaiseSig(type(exc).__name__, (str(exc),), e)
         if isinstance(base, tuple) and len(base) == 2 and base[0] == 'class' and m == '_make' and len(args) == 1:
             home = self.class_home(base[1])
-            if home is not None and self.class_kind(home[1]) == 'namedtuple':
+            if base[1] in DYN_NAMEDTUPLES or (home is not None and self.class_kind(home[1]) == 'namedtuple'):
                 obj = self.instantiate(base[1], list(self.iterate(args[0], e)), None, e)
                 if obj is not None:
                     return obj
@@ -2437,13 +2494,13 @@ class Interp:
                 di = i - (len(params) - len(defaults))
                 if di < 0:
                     self.bad(at, 'missing argument')
-                env[p] = self.eval(defaults[di], {})
+                env[p] = self.eval(defaults[di], self._class_scope(node))
         # keyword-only parameters: from the keywords of the call, else their defaults
         for a, d in zip(node.args.kwonlyargs, node.args.kw_defaults):
             if kwargs and a.arg in kwargs:
                 env[a.arg] = kwargs[a.arg]
             elif d is not None:
-                env[a.arg] = self.eval(d, {})
+                env[a.arg] = self.eval(d, self._class_scope(node))
             else:
                 raise RaiseSig('TypeError', (f'{node.name}() missing keyword-only argument {a.arg}',), at)
         if kwargs:
